@@ -233,7 +233,21 @@ func checkQCViewBinding(c *Ctx, rule string) {
 		if hasCmp(facts, "==", is(kQCHash+"p1)"), is(kGenesis)) {
 			nGen++
 			if !(hasCmp(facts, "==", is(kQCView+"p1)"), is("c:0")) || hasCmp(facts, "==", is(kQCView+"p1)"), is(kBlockView+"hs.GetGenesis())"))) {
-				badGen = append(badGen, p.Pos(e.Ret.Pos()))
+				// the view test may be tied to the hash test through a shared boolean (`isGenesis && view != 0` rejected
+				// first, `isGenesis` accepted next): no must-fact survives the join, but no consistent path to this exit
+				// avoids the edge that establishes view == genesis view
+				viewOK := func(fs []Fact) bool {
+					for _, f := range fs {
+						if f.Op == "==" && (f.L == kQCView+"p1)" || f.R == kQCView+"p1)") &&
+							(f.L == "c:0" || f.R == "c:0" || f.L == kBlockView+"hs.GetGenesis())" || f.R == kBlockView+"hs.GetGenesis())") {
+							return true
+						}
+					}
+					return false
+				}
+				if feasiblePathAvoiding(fl, e.Ret, viewOK) {
+					badGen = append(badGen, p.Pos(e.Ret.Pos()))
+				}
 			}
 			continue
 		}
